@@ -19,7 +19,10 @@
                                 onto an open File drops its handle without fclose.  Hypothesis `cleanRun` / `cleanList`.
     KF-C20-with-early-exit      `break`, `return` and an exception leave a with block without stop_in: the stream stays
                                 open.  Hypothesis `leave.runsStep = true`; theorems named `_partial`.
-  Source-derived facts: CelloGen/File.lean (guard table, File_Close facts, class instances, `with_in`).
+  Source-derived facts: CelloGen/File.lean (guard table, File_Close facts, class instances, `with_in`; the same for Process_*).
+  `Process` (popen / pclose, the second Stream class of src/File.c; Process_Close repaired by 51c301c): last section —
+  the same wrapper model (C20_process_same_wrappers), constructor `procNew` / `MOp.pnew`, reference pipe library `pipeIO`.
+  The collector as the third closer (GC_Sweep → File_Del) is `MOp.del` in the model; it is run on the library by the op `drop`.
 
   Reading guide.  A File object is `Option Handle` (`none` = `f->file` is NULL).  Every wrapper returns the stdio calls
   it made.  `track cur log = some cur'` says: following `log` from an object holding `cur`, every successful fopen
@@ -881,6 +884,172 @@ theorem C20_double_close_repaired :
     let e2 := runOps refIO Cfg.fixed h0 [.open fileFull .w, .write [1, 2, 3], .close, .close]
     e1.log = [.fopen 2 .w (some 1), .on .fclose 1] ∧ e2.log = [.fopen fileFull .w (some 1), .on .fwrite 1, .on .fclose 1] ∧
     e1.f = none ∧ e2.f = none := by
+  decide
+
+/-! ## `Process`: the second Stream class of src/File.c (popen / pclose) — audit2 item 1, fix 51c301c
+
+  Process_<X> is File_<X> under the renaming Process_→File_, p->proc→f->file, popen→fopen, pclose→fclose for every function
+  but the constructor (checked on the source text on every run: C20_process_same_wrappers), so `step` / `runOps` / `Multi`
+  are the model of both classes: for a Process the `fopen` / `fclose` of the abstract stdio are popen / pclose (pclose
+  "fails" for every non-zero wait status) and the configuration holds the two facts about Process_Close.  All theorems
+  above that quantify over every `Stdio σ` therefore speak about Process objects as well; the ones below spell that out,
+  add the constructor (`procNew`, `MOp.pnew`) and the reference pipe library (`pipeIO`). -/
+
+/-- every Process_* wrapper has the closed-handle test `if (p->proc is NULL) throw(IOError …)` in front of its first stdio
+    call and calls exactly the functions the model says -/
+theorem C20_process_guard_table :
+    (CelloGen.File.procTable.filter (fun r => r.name ∉ ["Process_New", "Process_Del", "Process_Open"])).map
+        (fun r => (r.name, r.stdio, r.guardFirst))
+      = modelledProcWrappers.map (fun p => (p.1, p.2, true)) := by
+  decide
+
+/-- the eleven functions the two classes share are the same text under the renaming (so one model serves both) -/
+theorem C20_process_same_wrappers :
+    CelloGen.File.procSameAsFile = sharedWrappers.map (fun n => (n, true)) := by
+  decide
+
+/-- Process_Close is guarded and always drops the handle (fix 51c301c: reverting either half breaks this theorem);
+    Process_Open closes a held handle first, calls only popen, throws on NULL; Process_Del closes a held handle and
+    calls nothing itself; Process_New always opens (no test of `len(args)`); which function is sclose / stop / destruct;
+    the texts of the four functions as they are now. -/
+theorem C20_process_source_shape :
+    CelloGen.File.procCloseGuarded = true ∧ CelloGen.File.procCloseDropsAlways = true ∧
+    CelloGen.File.procOpenClosesFirst = true ∧ CelloGen.File.procOpenThrowsOnNull = true ∧
+    CelloGen.File.procDelClosesIfHeld = true ∧ CelloGen.File.procNewAlwaysOpens = true ∧
+    (CelloGen.File.procTable.filter (fun r => r.name ∈ ["Process_New", "Process_Del", "Process_Open"])).map (fun r => (r.name, r.stdio))
+      = [("Process_Del", []), ("Process_New", []), ("Process_Open", ["popen"])] ∧
+    CelloGen.File.procInstClasses = ["Doc", "New", "Start", "Stream", "Format"] ∧
+    CelloGen.File.procInstNew = ["Process_New", "Process_Del"] ∧
+    CelloGen.File.procInstStart = ["NULL", "Process_Close", "NULL"] ∧
+    CelloGen.File.procInstStream = ["Process_Open", "Process_Close", "Process_Seek", "Process_Tell", "Process_Flush", "Process_EOF",
+      "Process_Read", "Process_Write"] ∧
+    CelloGen.File.procInstFormat = ["Process_Format_To", "Process_Format_From"] ∧
+    CelloGen.File.procNewText = "struct Process* p = self; p->proc = NULL; Process_Open(self, get(args, $I(0)), get(args, $I(1)));" ∧
+    CelloGen.File.procDelText = "struct Process* p = self; if (p->proc isnt NULL) { Process_Close(self); }" ∧
+    CelloGen.File.procOpenText = "struct Process* p = self; if (p->proc isnt NULL) { Process_Close(self); } p->proc = popen(c_str(filename), c_str(access)); if (p->proc is NULL) { throw(IOError, \"Could not open process: %s\", filename); } return self;" ∧
+    CelloGen.File.procCloseText = "struct Process* p = self; if (p->proc is NULL) { throw(IOError, \"Cannot close process - no process open.\"); } int err = pclose(p->proc); p->proc = NULL; if (err != 0) { throw(IOError, \"Failed to close process: %i\", $I(err)); }" := by
+  refine ⟨rfl, rfl, rfl, rfl, rfl, rfl, by decide, by decide, by decide, by decide, by decide, by decide, rfl, rfl, rfl, rfl⟩
+
+/-- the configuration the driver runs Process objects with (read from the source) is the repaired one -/
+theorem C20_process_current_cfg :
+    (⟨CelloGen.File.procCloseGuarded, CelloGen.File.procCloseDropsAlways⟩ : Cfg) = Cfg.fixed := rfl
+
+/-- **C20 (closed ⇒ IOError, no stdio) for Process**, for the code as it is in /repo now: for every implementation of
+    popen / pclose / stdio, every library state and every operation that needs an open stream (sclose, stop, leaving a with
+    block, sseek, stell, sflush, seof, sread, swrite, print_to, scan_from): on a Process that is not open it raises
+    IOError, makes no call — in particular no `pclose(NULL)` — and changes nothing. -/
+theorem C20_process_closed_refused {σ : Type} (io : Stdio σ) (l : σ) (op : Op) (h : op.needsOpen = true) :
+    step io ⟨CelloGen.File.procCloseGuarded, CelloGen.File.procCloseDropsAlways⟩ l none op = ⟨l, none, .raised .IOError, []⟩ :=
+  C20_closed_refused io l op h
+
+/-- **After any closing operation the Process is closed, whatever pclose answered** — in particular after a command
+    that ended with a non-zero exit status (pclose ≠ 0 → IOError): the handle is dropped, so a second sclose, `del`
+    (Process_Del) or a reopen (Process_Open) never hands it to pclose again. -/
+theorem C20_process_after_close_refused {σ : Type} (io : Stdio σ) (l : σ) (f : Option Handle) (c : Op) (hc : c.closes = true)
+    (op : Op) (h : op.needsOpen = true) :
+    let cfg : Cfg := ⟨CelloGen.File.procCloseGuarded, CelloGen.File.procCloseDropsAlways⟩
+    let r := step io cfg l f c
+    r.f = none ∧ step io cfg r.lib r.f op = ⟨r.lib, none, .raised .IOError, []⟩ ∧
+      (step io cfg r.lib r.f .destruct).calls = [] := by
+  intro cfg r
+  obtain ⟨h1, h2⟩ := C20_after_close_refused io l f c hc op h
+  refine ⟨h1, h2, ?_⟩
+  have h1' : r.f = none := h1
+  rw [h1']
+  exact (C20_closed_other io r.lib).1
+
+/-- **The constructor.**  `new(Process, cmd, access)` always opens: exactly one popen, the object holds its result, IOError
+    and no object when popen answers NULL; with fewer than two arguments `get(args, …)` raises IndexOutOfBoundsError
+    before popen is reached — no call, no object. -/
+theorem C20_process_new {σ : Type} (io : Stdio σ) (cfg : Cfg) (l : σ) :
+    procNew io cfg l none = ⟨l, none, .raised .IndexOutOfBoundsError, []⟩ ∧
+    ∀ c m, (procNew io cfg l (some (c, m))).calls = [.fopen c m (io.fopen l c m).2] ∧
+      (procNew io cfg l (some (c, m))).f = (io.fopen l c m).2 ∧
+      ((procNew io cfg l (some (c, m))).out = .ok () ↔ ((io.fopen l c m).2).isSome = true) := by
+  refine ⟨rfl, ?_⟩
+  intro c m
+  rcases ho : io.fopen l c m with ⟨l2, r⟩
+  cases r <;> simp [procNew, fileOpen, ho]
+
+/-- **C20 (close-once) for one Process**, code as it is now: every history of sopen / reopen / sclose / stop / with /
+    destruct / transfers, for every popen / pclose (either may fail at will): the calls are well bracketed — each successful
+    popen is followed by exactly one pclose of that handle before the next popen, no call on NULL or on a handle that was
+    pclosed — and the counts balance. -/
+theorem C20_process_close_once {σ : Type} (io : Stdio σ) (s : Hist σ) (ops : List Op) :
+    let cfg : Cfg := ⟨CelloGen.File.procCloseGuarded, CelloGen.File.procCloseDropsAlways⟩
+    ∃ suf, (runOps io cfg s ops).log = s.log ++ suf ∧ track s.f suf = some (runOps io cfg s ops).f ∧
+      (suf.filter isOpenOk).length + (if s.f.isSome then 1 else 0) =
+        (suf.filter isClose).length + (if (runOps io cfg s ops).f.isSome then 1 else 0) := by
+  intro cfg
+  have hcfg : cfg = Cfg.fixed := rfl
+  rw [hcfg]
+  obtain ⟨suf, h1, h2⟩ := runOps_track io s ops
+  have hc := track_count _ _ _ h2
+  exact ⟨suf, h1, h2, by omega⟩
+
+/-- **… and for any population of File and Process objects over one C library, over handles** (`MOp.new` = File_New,
+    `MOp.pnew` = Process_New; for a mixed population `io.fopen` answers both fopen and popen).  Specialised here to Process
+    objects over the reference pipe library from a start in which none is open. -/
+theorem C20_process_close_once_system (s : Multi PRef) (hs : ∀ p ∈ s.objs, p.2 = none)
+    (steps : List (Nat × MOp)) (hclean : s.cleanRun pipeIO Cfg.fixed steps = true) :
+    let e := s.run pipeIO Cfg.fixed steps
+    ∃ suf, e.log = s.log ++ suf ∧
+      (freshCalls [] (untag suf) = true →
+        ∃ live', gtrack [] (untag suf) = some live' ∧ e.Sep ∧ e.LiveIs live' ∧
+          ((untag suf).filter isOpenOk).length = live'.length + ((untag suf).filter isClose).length) :=
+  C20_close_once_from_closed pipeIO s hs steps hclean
+
+/-- the hypotheses are met, and the pieces fit, on a concrete history under the reference pipe library: constructors with
+    0 and 2 arguments, `false` closed by sclose (IOError, handle dropped, second sclose refused), deleted; `cat` of a
+    5-byte input read 2 + 9 (over-read: item count 0, the 3 remaining bytes, seof), reopened on `true` (pclose, popen),
+    left through a with block -/
+example :
+    let s0 : Multi PRef := ⟨{ PRef.init with inputs := [(0, [1, 2, 3, 4, 5])] }, [(0, none)], []⟩
+    let steps : List (Nat × MOp) :=
+      [(2, .pnew none), (2, .pnew (some (cmdFalse, .r))), (2, .op .close), (2, .op .close), (2, .del),
+       (0, .op (.open cmdCat .r)), (0, .op (.read 2)), (0, .op (.read 9)), (0, .op .eof), (0, .op (.open cmdTrue .r)),
+       (0, .op .withEnter), (0, .op .withExit)]
+    let e := s0.run pipeIO Cfg.fixed steps
+    (∀ p ∈ s0.objs, p.2 = none) ∧ s0.cleanRun pipeIO Cfg.fixed steps = true ∧ freshCalls [] (untag e.log) = true ∧
+    e.log = [(2, .fopen cmdFalse .r (some 1)), (2, .on .fclose 1),
+             (0, .fopen cmdCat .r (some 2)), (0, .on .fread 2), (0, .on .fread 2), (0, .on .feof 2), (0, .on .feof 2),
+             (0, .on .fclose 2), (0, .fopen cmdTrue .r (some 3)), (0, .on .fclose 3)] ∧
+    gtrack [] (untag e.log) = some [] ∧ e.lib.streams = [] ∧
+    (step pipeIO Cfg.fixed (s0.step pipeIO Cfg.fixed 2 (.pnew (some (cmdFalse, .r)))).lib (some 1) .close).out = .raised .IOError ∧
+    (fileRead pipeIO (fileOpen pipeIO Cfg.fixed s0.lib none cmdCat .r).lib (some 1) 2).out = .ok (1, [1, 2]) := by
+  decide
+
+/-- **The un-repaired Process_Close is refuted** (the state of /repo before fix 51c301c: no closed-handle test, the
+    handle kept when pclose ≠ 0 — `Cfg.preFix`).  Witnesses under the reference pipe library:
+    (1) `p = new(Process, "true", "r"); sclose(p); sclose(p)` — the second sclose calls pclose(NULL): undefined behaviour (a
+        crash in glibc), the log is not well bracketed;
+    (2) `p = new(Process, "false", "r"); sclose(p)` — IOError (exit status 1) and the object still holds handle 1, which is
+        not open any more; `del(p)` (or the collector) then calls pclose on it a second time: one popen, two pcloses. -/
+theorem C20_process_close_old_refuted :
+    let s0 : Multi PRef := ⟨PRef.init, [], []⟩
+    let e1 := s0.run pipeIO Cfg.preFix [(2, .pnew (some (cmdTrue, .r))), (2, .op .close), (2, .op .close)]
+    let e2a := s0.run pipeIO Cfg.preFix [(2, .pnew (some (cmdFalse, .r))), (2, .op .close)]
+    let e2 := s0.run pipeIO Cfg.preFix [(2, .pnew (some (cmdFalse, .r))), (2, .op .close), (2, .del)]
+    e1.log = [(2, .fopen cmdTrue .r (some 1)), (2, .on .fclose 1), (2, .onNull .fclose)] ∧ gtrack [] (untag e1.log) = none ∧
+    (step pipeIO Cfg.preFix PRef.init none .close).out = .ub ∧
+    e2a.held 2 = some 1 ∧ e2a.lib.streams = [] ∧
+    e2.log = [(2, .fopen cmdFalse .r (some 1)), (2, .on .fclose 1), (2, .on .fclose 1)] ∧
+    gtrack [] (untag e2.log) = none ∧ track none (proj 2 e2.log) = none ∧
+    ((untag e2.log).filter isOpenOk).length = 1 ∧ ((untag e2.log).filter isClose).length = 2 := by
+  decide
+
+/-- the code as it is now on the same two histories: the second sclose is refused without a call, the failing pclose
+    drops the handle, del makes no call: one pclose per popen -/
+theorem C20_process_close_repaired :
+    let s0 : Multi PRef := ⟨PRef.init, [], []⟩
+    let cfg : Cfg := ⟨CelloGen.File.procCloseGuarded, CelloGen.File.procCloseDropsAlways⟩
+    let e1 := s0.run pipeIO cfg [(2, .pnew (some (cmdTrue, .r))), (2, .op .close), (2, .op .close)]
+    let e2a := s0.run pipeIO cfg [(2, .pnew (some (cmdFalse, .r))), (2, .op .close)]
+    let e2 := s0.run pipeIO cfg [(2, .pnew (some (cmdFalse, .r))), (2, .op .close), (2, .del)]
+    e1.log = [(2, .fopen cmdTrue .r (some 1)), (2, .on .fclose 1)] ∧ gtrack [] (untag e1.log) = some [] ∧
+    e2a.held 2 = none ∧
+    (step pipeIO cfg (s0.step pipeIO cfg 2 (.pnew (some (cmdFalse, .r)))).lib (some 1) .close).out = .raised .IOError ∧
+    e2.log = [(2, .fopen cmdFalse .r (some 1)), (2, .on .fclose 1)] ∧ gtrack [] (untag e2.log) = some [] := by
   decide
 
 end Cello.File
